@@ -370,6 +370,25 @@ def instantiate(apps, limit=4000):
                 for ((w, c), r) in pw:
                     out.append(z3.Implies(z3.And(y == p, w == x, c == a * b), q == r))
                 out.append(z3.Implies(z3.And(y == p, a * b == 1), q == x))
+    # integer shifts of the exponent: pow(x, a) = pow(x, b) * x^k when a = b + k
+    if len(pw) <= 14:
+        for ((x, a), p) in pw:
+            for ((y, b), q) in pw:
+                if p.eq(q):
+                    continue
+                xk = x
+                for k in range(1, 7):
+                    out.append(z3.Implies(z3.And(x == y, a == b + k), p == q * xk))
+                    xk = xk * x
+    gm = apps.get("gamma", [])
+    for ((a,), ga) in gm:
+        for ((b,), gb) in gm:
+            if ga.eq(gb):
+                continue
+            prod = a
+            for k in range(1, 7):  # Gamma(s+k) = s (s+1) ... (s+k-1) Gamma(s)
+                out.append(z3.Implies(b == a + k, gb == prod * ga))
+                prod = prod * (a + k)
     # pow(x,a) = exp(a log x) when those occur
     for ((x, a), p) in pw:
         for ((y,), ly) in lg:
